@@ -1,0 +1,26 @@
+//! Verification hook (cargo feature `verif`): entry counts of every map of the virtual file system.
+//! The exhaustive destructuring makes a new field break this build until it is accounted for.
+use super::Vfs;
+
+impl Vfs {
+    pub fn verif_report(&self) -> Vec<(&'static str, usize)> {
+        let Self {
+            file_id_map,
+            file_path_map,
+            remote_file_id_map,
+            file_data,
+            line_index_map,
+            tree_map,
+            emmyrc: _,
+            node_cache: _,
+        } = self;
+        vec![
+            ("vfs.file_id_map", file_id_map.len()),
+            ("vfs.file_path_map", file_path_map.len()),
+            ("vfs.remote_file_id_map", remote_file_id_map.len()),
+            ("vfs.file_data.live", file_data.iter().filter(|d| d.is_some()).count()),
+            ("vfs.line_index_map", line_index_map.len()),
+            ("vfs.tree_map", tree_map.len()),
+        ]
+    }
+}
